@@ -10,7 +10,8 @@ NEED_SHAPES = [
     "assert:periodic,first>0", "assert:single@nonzero", "boundary-group-with-several-constraints",
     "ce_blowup<lde_blowup", "aux-segment", "ext:None", "ext:Quadratic", "ext:Cubic", "field:f64", "field:f128",
     "exemptions:2", "exemptions:>3", "through-prove+verify",
-]
+] + [f"values:{p}:{c}" for p in ("sum-zero", "all-zero", "all-equal", "single-nonzero", "alternating", "top-coeff-zero", "monomial")
+     for c in ("single", "small-poly", "large-poly")]
 
 
 def _falsify(ctx, hb, budget):
@@ -48,7 +49,9 @@ def run(ctx):
                 "coin) are compared with a from-scratch evaluation of the definition (product-formula Lagrange interpolation of the trace, the "
                 "family's transition algebra, divisors as products over enforced steps, assertion polynomials interpolated over their own steps, "
                 "coefficients assigned in (stride, first step, column) order); verify() must accept honest proofs and reject them after one OOD "
-                "constraint evaluation is changed; a boundary stream enumerates every (declared degree, exemptions) pair; "
+                "constraint evaluation is changed; boundary streams enumerate every (declared degree, exemptions) pair and structured assertion values "
+                "(summing to zero, all zero, all equal, one non-zero, alternating, top coefficient zero, monomial) for 1, 2, 4, 8, 32, 64, 128 values with "
+                "zero and non-zero first step, so that vanishing coefficients of the assertion polynomials are exercised in every representation; "
                 "correspondence: whole evaluate(), CompositionPoly::new/evaluate_at/recombination, BoundaryConstraintGroup::evaluate_at and "
                 "TransitionConstraints::combine_evaluations against the extracted Gallina model over f64; distinct = distinct case lines")
     ctx.assumptions += [
